@@ -108,6 +108,13 @@ func c13Walk(cs *core.Case, in []byte, t *rtcp.TransportLayerCC, via string) {
 		}
 	}
 	w, err := ref.WalkTWCC(in)
+	// the statement leaves open whether the unused trailing symbols of a vector chunk that
+	// overshoots the status count have deltas; the library says yes. Both readings are accepted:
+	// the decode is judged against the walk whose delta count it matches.
+	if wc, cerr := ref.WalkTWCCClipped(in); cerr == nil && (err != nil || (len(t.RecvDeltas) == len(wc.Deltas) && len(t.RecvDeltas) != len(w.Deltas))) {
+		w, err = wc, nil
+		cs.Count("walk-reading/clipped-vectors")
+	}
 	if err != nil {
 		cs.Fail("bounds/walk", det(core.W{"walker": err.Error()})())
 		return
